@@ -68,6 +68,31 @@ func detachSign(k *openpgp.Entity, data []byte) []byte {
 
 // ---- building a package from an abstract shape -------------------------------
 
+// fileContent: the bytes of a packaged file; kind "fill" with content [b, e] is the byte b repeated 2^e times
+// (a large, highly redundant payload that the vector cannot carry literally).
+func fileContent(f J) []byte {
+	if f["kind"].(string) == "fill" {
+		c := L(f["content"])
+		return bytes.Repeat([]byte{byte(I(c[0]))}, 1<<uint(I(c[1])))
+	}
+	return []byte(S(f["content"]))
+}
+
+// entryObs: one entry read from a tar stream.  Large contents are logged as length and fill byte (-1 = mixed).
+func entryObs(name string, content []byte) J {
+	if len(content) <= 65536 {
+		return J{"name": name, "content": BB(content), "len": len(content), "fill": -1}
+	}
+	fill := int(content[0])
+	for _, c := range content {
+		if int(c) != fill {
+			fill = -1
+			break
+		}
+	}
+	return J{"name": name, "content": []interface{}{}, "len": len(content), "fill": fill}
+}
+
 func buildDeb(vec J) (builtDeb, error) {
 	specs := L(vec["members"])
 	members := make([]arMember, len(specs))
@@ -87,7 +112,7 @@ func buildDeb(vec J) (builtDeb, error) {
 				case "dir":
 					files = append(files, tarFile{Name: f["name"].(string), Dir: true})
 				default:
-					files = append(files, tarFile{Name: f["name"].(string), Content: []byte(S(f["content"]))})
+					files = append(files, tarFile{Name: f["name"].(string), Content: fileContent(f)})
 				}
 			}
 			data, err := compress(s["comp"].(string), buildTar(files))
@@ -99,7 +124,7 @@ func buildDeb(vec J) (builtDeb, error) {
 			files := []tarFile{}
 			for _, fj := range L(s["files"]) {
 				f := M(fj)
-				files = append(files, tarFile{Name: f["name"].(string), Content: []byte(S(f["content"]))})
+				files = append(files, tarFile{Name: f["name"].(string), Content: fileContent(f)})
 			}
 			data, err := compress(s["comp"].(string), buildTar(files))
 			if err != nil {
@@ -188,7 +213,7 @@ func loadOnce(b []byte, check J) (obs J, id string) {
 			break
 		}
 		content, _ := io.ReadAll(d.Data)
-		files = append(files, J{"name": h.Name, "content": BB(content)})
+		files = append(files, entryObs(h.Name, content))
 	}
 	obs = J{"ok": true, "panic": false, "path": d.Path,
 		"control": J{"Package": B(c.Package), "Source": B(c.Source), "Version": B(ver), "Architecture": B(arch),
@@ -243,7 +268,7 @@ func overlappingLoads(b []byte) (obs J) {
 				done1 = true
 			} else {
 				c, _ := io.ReadAll(d1.Data)
-				t1 = append(t1, J{"name": h.Name, "content": BB(c)})
+				t1 = append(t1, entryObs(h.Name, c))
 			}
 		}
 		if !done2 {
@@ -252,7 +277,7 @@ func overlappingLoads(b []byte) (obs J) {
 				done2 = true
 			} else {
 				c, _ := io.ReadAll(d2.Data)
-				t2 = append(t2, J{"name": h.Name, "content": BB(c)})
+				t2 = append(t2, entryObs(h.Name, c))
 			}
 		}
 	}
@@ -260,8 +285,83 @@ func overlappingLoads(b []byte) (obs J) {
 	return
 }
 
+// execDebOps: several Deb values alive in one process: Load / read Data / CheckDebsig / Close (also twice) in the
+// order the vector gives.  One observation per operation.
+func execDebOps(vec J, out *Writer) {
+	pkgs := [][]byte{}
+	for _, p := range L(vec["pkgs"]) {
+		b, err := buildDeb(J{"members": p})
+		if err != nil {
+			out.Put(J{"ev": "deb_ops", "in": vec, "built": false, "steps": []interface{}{}})
+			return
+		}
+		pkgs = append(pkgs, b.Bytes)
+	}
+	handles := map[int]*deb.Deb{}
+	steps := []interface{}{}
+	for _, oj := range L(vec["ops"]) {
+		o := M(oj)
+		h := I(o["h"])
+		obs := J{"ok": false, "panic": false, "package": B(""), "signer": "none", "tar": []interface{}{}}
+		func() {
+			defer func() {
+				if r := recover(); r != nil {
+					obs["panic"] = true
+				}
+			}()
+			switch o["op"].(string) {
+			case "load":
+				dd, err := deb.Load(bytes.NewReader(pkgs[I(o["p"])-1]), "/tmp/x.deb")
+				if err != nil {
+					return
+				}
+				handles[h] = dd
+				obs["ok"] = true
+				obs["package"] = B(dd.Control.Package)
+			case "close":
+				if dd := handles[h]; dd != nil {
+					obs["ok"] = dd.Close() == nil
+				}
+			case "data":
+				dd := handles[h]
+				if dd == nil {
+					return
+				}
+				files := []interface{}{}
+				for i := 0; i < 10000; i++ {
+					hd, err := dd.Data.Next()
+					if err == io.EOF {
+						obs["ok"] = true
+						break
+					}
+					if err != nil {
+						break
+					}
+					c, _ := io.ReadAll(dd.Data)
+					files = append(files, entryObs(hd.Name, c))
+				}
+				obs["tar"] = files
+				obs["package"] = B(dd.Control.Package)
+			case "check":
+				dd := handles[h]
+				if dd == nil {
+					return
+				}
+				signer, err := dd.CheckDebsig(keyring(L(o["ring"])), "origin")
+				obs["ok"] = err == nil
+				obs["signer"] = keyName(signer)
+				obs["package"] = B(dd.Control.Package)
+			}
+		}()
+		steps = append(steps, obs)
+	}
+	out.Put(J{"ev": "deb_ops", "in": vec, "built": true, "steps": steps})
+}
+
 func execDeb(vec J, out *Writer) {
 	switch vec["k"].(string) {
+	case "deb_ops":
+		execDebOps(vec, out)
 	case "deb":
 		b, err := buildDeb(vec)
 		if err != nil {
